@@ -491,6 +491,7 @@ def layouts(draw, wrap=None, decorations=True):
         'aligned': draw(st.sampled_from((0, 0, 8, 12, 16))),   # > 0: right aligned columns of that width
         'chunks': ints(1, 7, 1, 6),                            # values per continuation line in wrapped form
         'final_newline': draw(st.integers(0, 4)) != 0,
+        'preamble': draw(st.sampled_from((0, 0, 0, 0, 0, 0, 0, 0, 0, 63, 64, 70, 200, 1100))),
     }
 
 
@@ -594,6 +595,10 @@ def render_las_info(model, layout):
         info['data_lines'] += 1
         return text
 
+    for i in range(int(layout.get('preamble') or 0)):
+        # a long run of comment and blank lines before the first section (a licence text, a processing history)
+        out.append(('# %s line %d of the preamble' % ('=' * (i % 7), i)) if i % 5 else '')
+        info['before_first_section'] += 1
     emit(title('V'))
     emit(header({'mnem': 'VERS', 'unit': '', 'value': model['vers'], 'desc': model['vers_desc']}))
     emit(header({'mnem': 'WRAP', 'unit': '', 'value': 'YES' if wrap else 'NO', 'desc': model['wrap_desc']}))
